@@ -26,7 +26,14 @@ IDENTITIES = {
     # attribute names that merely contain / are contained in the names a policy lists
     'near-names': {'givenName': ['Alice'], 'givenNameX': ['NEAR-1'], 'mailbox': ['NEAR-2'], 'mai': ['NEAR-3'], 'titles': ['NEAR-4'],
                    'xmail': ['NEAR-5'], 'secret': ['S3CR3T-VALUE']},
+    # single values handed over as plain strings; the mail value merely contains the value an SP may ask for
+    'string-valued': {'givenName': 'Alice', 'mail': 'xalice@example.org', 'title': 'Dr', 'secret': 'S3CR3T-VALUE'},
 }
+
+
+def as_list(v):
+    return [v] if isinstance(v, str) else list(v)
+
 RESTR = {
     'absent': 'ABSENT',
     'None': None,
@@ -60,7 +67,15 @@ SP_DECL = {
     'value-unmet': (('mail', True, ('nobody@nowhere.example',)), ('givenName', False, ())),
     'optional-only': (('title', False, ()),),
     'optional-absent': (('uid', False, ()),),
+    # a value list that also carries an empty AttributeValue element: still a value list
+    'value-met+empty': (('mail', True, ('alice@example.org', '')), ('givenName', False, ())),
+    # the declaration sits in one of two SPSSODescriptor elements (the other one, e.g. for SAML 1.1, declares nothing)
+    'two-descr-second-bare': (('givenName', True, ()), ('mail', True, ()), ('title', False, ())),
+    'two-descr-first-bare': (('givenName', True, ()), ('mail', True, ()), ('title', False, ())),
 }
+BARE_DESCR = ('<md:SPSSODescriptor protocolSupportEnumeration="urn:oasis:names:tc:SAML:1.1:protocol">'
+              '<md:AssertionConsumerService Binding="urn:oasis:names:tc:SAML:1.0:profiles:browser-post" '
+              'Location="https://spx.example/acs11" index="0"/></md:SPSSODescriptor>')
 SP_CATS = {'none': (), 'rs': (RS,), 'coco': (COCO,), 'swamid-half': (SWAMID_RE,), 'swamid-full': (SWAMID_RE, SWAMID_HEI),
            # the same category value listed twice (legal metadata): still only half of the swamid combination
            'swamid-half-twice': (SWAMID_RE, SWAMID_RE), 'rs+swamid-half-twice': (RS, SWAMID_RE, SWAMID_RE)}
@@ -75,7 +90,12 @@ def sp_metadata(decl, cats):
         extra = ('<md:Extensions><mdattr:EntityAttributes xmlns:mdattr="urn:oasis:names:tc:SAML:metadata:attribute">'
                  '<saml:Attribute xmlns:saml="urn:oasis:names:tc:SAML:2.0:assertion" Name="http://macedir.org/entity-category" '
                  'NameFormat="urn:oasis:names:tc:SAML:2.0:attrname-format:uri">%s</saml:Attribute></mdattr:EntityAttributes></md:Extensions>' % vals)
-    return world.sp_md(requested=req, extra=extra)
+    md = world.sp_md(requested=req, extra=extra)
+    if decl == 'two-descr-second-bare':
+        md = md.replace('</md:EntityDescriptor>', BARE_DESCR + '</md:EntityDescriptor>')
+    elif decl == 'two-descr-first-bare':
+        md = md.replace('<md:SPSSODescriptor', BARE_DESCR + '<md:SPSSODescriptor', 1)
+    return md
 
 
 def policy_dict(entry, restr, cat, fail):
@@ -137,7 +157,7 @@ def released(xml):
 
 def permitted(identity, restr, cat, decl, cats):
     """Reference filter: name -> allowed values (subset of the identity), from the statement."""
-    allowed = {k: list(v) for k, v in identity.items()}
+    allowed = {k: as_list(v) for k, v in identity.items()}
     if cat != 'absent':
         table = CAT_TABLE[cat]
         required = [n.lower() for n, r, _v in SP_DECL[decl] if r]
@@ -229,7 +249,7 @@ def evaluate(c):
     allowed = permitted(identity, c['restr'], c['cat'], c['decl'], c['cats'])
     for role in ('idp', 'aa', 'aa+query'):
         srv = server(c['entry'], c['restr'], c['cat'], c['fail'], c['decl'], c['cats'], role.split('+')[0])
-        ident_copy = {k: list(v) for k, v in identity.items()}
+        ident_copy = {k: (v if isinstance(v, str) else list(v)) for k, v in identity.items()}
         nid = saml.NameID(text='subject-1', format=saml.NAMEID_FORMAT_TRANSIENT)
         try:
             if role == 'idp':
@@ -256,7 +276,7 @@ def evaluate(c):
                     bad.append(('released-attribute-not-in-identity', name))
                     continue
                 for v in vals:
-                    if v not in identity[key]:
+                    if v not in as_list(identity[key]):
                         bad.append(('released-value-not-in-identity', name))
                     elif key not in allowed or v not in allowed[key]:
                         bad.append(('released-beyond-policy', name))
@@ -334,7 +354,7 @@ def run(ctx):
             hist[o['outcome']] = hist.get(o['outcome'], 0) + 1
             ident = IDENTITIES[c['ident']]
             allowed = permitted(ident, c['restr'], c['cat'], c['decl'], c['cats'])
-            if any(k not in allowed or allowed[k] != ident[k] for k in ident):
+            if any(k not in allowed or allowed[k] != as_list(ident[k]) for k in ident):
                 nontriv.add((tuple(sorted(c.items())), o['role']))
             for kind, name in o['bad']:
                 key = dict(c)
